@@ -343,20 +343,36 @@ Section AppendProofs.
     rewrite IHl, IHr. apply append_limit_prefix.
   Qed.
 
-  (* the final slice: rows offset+1 .. offset+limit, when the subtraction does not underflow *)
-  Theorem final_slice_ok (limit offset : N) (rows : list B) :
-    (offset <= N.of_nat (length rows))%N ->
+  (* the final slice is total and returns rows offset+1 .. offset+limit, fewer or none when short *)
+  Theorem final_slice_spec (limit offset : N) (rows : list B) :
     final_slice limit offset rows =
-      Some (firstn (N.to_nat (N.min limit (N.of_nat (length rows) - offset))) (skipn (N.to_nat offset) rows)).
+      firstn (N.to_nat limit) (skipn (N.to_nat offset) rows).
   Proof.
-    intros H. unfold final_slice. rewrite qfirstn_eq, qskipn_eq.
-    destruct (N.of_nat (length rows) <? offset)%N eqn:E; [apply N.ltb_lt in E; lia|reflexivity].
+    unfold final_slice. rewrite qfirstn_eq, qskipn_eq.
+    set (len := length rows).
+    destruct (N.le_gt_cases offset (N.of_nat len)) as [Ho|Ho].
+    - rewrite (N.min_l _ _ Ho).
+      destruct (N.le_gt_cases limit (N.of_nat len - offset)) as [Hl|Hl].
+      + rewrite (N.min_l _ _ Hl). reflexivity.
+      + rewrite N.min_r by lia.
+        rewrite !firstn_all2; [reflexivity| |]; rewrite skipn_length; fold len; lia.
+    - rewrite (N.min_r offset) by lia.
+      replace (N.of_nat len - N.of_nat len)%N with 0%N by lia. rewrite N.min_0_r. cbn [N.to_nat firstn].
+      replace (skipn (N.to_nat offset) rows) with (@nil B) by (symmetry; apply skipn_all2; fold len; lia).
+      rewrite firstn_nil. reflexivity.
   Qed.
 
-  (* C05_slice_total is refuted on the faithful model (F5): OFFSET beyond the rows *)
-  Lemma final_slice_refuted : exists (limit offset : N) (rows : list nat), final_slice limit offset rows = None.
-  Proof. exists 5%N, 3%N, [1; 2]%nat. reflexivity. Qed.
+  Lemma final_slice_length (limit offset : N) (rows : list B) :
+    N.of_nat (length (final_slice limit offset rows)) = N.min limit (N.of_nat (length rows) - N.min offset (N.of_nat (length rows))).
+  Proof.
+    rewrite final_slice_spec, firstn_length, skipn_length. lia.
+  Qed.
 
-  Lemma combined_limit_refuted : exists limit offset, combined_limit limit offset = None.
-  Proof. exists 18446744073709551615%N, 1%N. reflexivity. Qed.
+  (* limit + offset never overflows u64 any more *)
+  Lemma combined_limit_bounded limit offset : (combined_limit limit offset <= u64_max)%N.
+  Proof. unfold combined_limit. lia. Qed.
+
+  Lemma combined_limit_exact limit offset :
+    (limit + offset <= u64_max)%N -> combined_limit limit offset = (limit + offset)%N.
+  Proof. unfold combined_limit. lia. Qed.
 End AppendProofs.
